@@ -167,6 +167,57 @@ class Z:
             elif k == 'out': out[op[1]] = s.g(op[2])
         return out
 
+def bv_run(ops, n, two):
+    """the whole straight-line body over 32-bit bit-vector inputs (64-bit intermediate words): env of z3 terms per variable"""
+    A = [z3.BitVec(f'bA_{i}', 32) for i in range(n)]; B = [z3.BitVec(f'bB_{i}', 32) for i in range(n)]
+    env = {}
+    for i in range(n): env[f'arg1_{i}'] = z3.ZeroExt(32, A[i]); env[f'arg2_{i}'] = z3.ZeroExt(32, B[i])
+    def g(a):
+        if a[0] == 'c': return z3.BitVecVal(a[1], 64)
+        if a[0] == 'and': return env[a[1]] & z3.BitVecVal(a[2], 64)
+        return env[a[1]]
+    lo32 = lambda t: t & z3.BitVecVal(0xffffffff, 64)
+    for op in ops:
+        k = op[0]
+        if k == 'mov': env[op[1]] = g(op[2])
+        elif k == 'addn': env[op[1]] = lo32(sum((g(a) for a in op[2][1:]), g(op[2][0])))
+        elif k == 'mulx':
+            t = g(op[2][0]) * g(op[2][1]); env[op[1][0]] = lo32(t); env[op[1][1]] = z3.LShR(t, 32)
+        elif k == 'addcarryx':
+            t = g(op[2][0]) + g(op[2][1]) + g(op[2][2]); env[op[1][0]] = lo32(t); env[op[1][1]] = z3.LShR(t, 32)
+        elif k == 'subborrowx':
+            t = g(op[2][1]) - g(op[2][2]) - g(op[2][0]); env[op[1][0]] = lo32(t); env[op[1][1]] = z3.LShR(t, 63)
+        elif k == 'cmovznz': env[op[1][0]] = z3.If(g(op[2][0]) == 0, g(op[2][1]), g(op[2][2]))
+    return A, B, env
+
+def rare_flag_witnesses(ops, n, P, two, tests, budget_s=90, per_query_ms=5000, to_mont=False):
+    """inputs that drive each carry / borrow flag the concrete operands never exercised to the value not seen yet.  A flag that is
+    almost always 0 (or 1) is where a dropped or mis-wired carry hides from sampling; each query is a bit-vector satisfiability
+    problem over the prefix of the code that defines the flag.  Returns a list of operand pairs (to be evaluated on the source)."""
+    seen = {}
+    flags = [op[1][1] for op in ops if op[0] in ('addcarryx', 'subborrowx')]
+    M32 = (1 << 32) - 1
+    for a, b in tests[:400]:
+        env = {f'arg1_{i}': (a >> (32 * i)) & M32 for i in range(n)}; env.update({f'arg2_{i}': (b >> (32 * i)) & M32 for i in range(n)})
+        try: _, full = evalpy(ops, env)
+        except (OverflowError, KeyError): continue
+        for fl in flags:
+            if fl in full: seen.setdefault(fl, set()).add(full[fl])
+    todo = [(fl, 1 - next(iter(v))) for fl, v in seen.items() if len(v) == 1]
+    if not todo: return []
+    A, B, env = bv_run(ops, n, two)
+    cat = lambda L: z3.Concat(*reversed(L))
+    base = [] if to_mont else [z3.ULT(cat(A), z3.BitVecVal(P, 32 * n))] + ([z3.ULT(cat(B), z3.BitVecVal(P, 32 * n))] if two else [])
+    out = []; t0 = time.time()
+    for fl, want in todo:
+        if time.time() - t0 > budget_s: break
+        if fl not in env: continue
+        sv = z3.Solver(); sv.set('timeout', per_query_ms); sv.add(base); sv.add(env[fl] == want)
+        if sv.check() == z3.sat:
+            m_ = sv.model(); gv = lambda L: sum(m_.eval(L[i], model_completion=True).as_long() << (32 * i) for i in range(n))
+            out.append((gv(A), gv(B) if two else 0, fl, want))
+    return out
+
 def dropped_words(ops):
     used = set()
     for op in ops:
@@ -216,7 +267,7 @@ def check_kernels(field, fns=None, timeout=None):
     f = field; n = NL[f]; P = PR[f]; R = 2 ** (32 * n); Rinv = pow(R, -1, P)
     src = open(os.path.join(common.REPO, f'src/fields/{f}/u32/fiat.rs')).read()
     obs = []
-    tmo = (timeout or (240 if common.tier() == 'quick' else 1200)) * 1000
+    tmo = (timeout or (180 if common.tier() == 'quick' else 1200)) * 1000
     todo = fns or ['add', 'sub', 'opp', 'mul', 'square', 'from_montgomery', 'to_montgomery']
     rnd = random.Random(common.seed() + 7)
     for fn in todo:
@@ -418,6 +469,20 @@ def check_kernels(field, fns=None, timeout=None):
             ob('result * R = a * b + K p - e p R  (K = quotient digits from the code; four strict inequalities)' if fn in ('mul', 'square') else ('result * R = a + K p - e p R' if fn == 'from_montgomery' else 'result * R = a * R^2 + K p - e p R (every a < 2^(32 n), not only a < p)'), worst, tot, {'quotient_digits': qs[:3] + ['...']})
             # range after the algebra: the proved equation is added as a lemma (it carries the Montgomery bound result < 2p)
             do_range([z3.Implies(cv == case, o * R == T + K * P - (1 - case) * P * R) for case in (0, 1)] if worst == z3.unsat else [], cv)
+        if any(o_.status != 'proved' and o_.name.startswith(f'K:{name}:') for o_ in obs) and not any(o_.status == 'violated' and 'a' in (o_.model or {}) and o_.name.startswith(f'K:{name}') for o_ in obs):
+            # not decided: look for a witness where sampling is blind - carries and borrows the concrete operands never flipped
+            t1 = time.time(); cands = rare_flag_witnesses(ops, n, P, two, tests, to_mont=(fn == 'to_montgomery'))
+            hit = None
+            for a_, b_, fl, want in cands:
+                env = {f'arg1_{i}': (a_ >> (32 * i)) & (M - 1) for i in range(n)}; env.update({f'arg2_{i}': (b_ >> (32 * i)) & (M - 1) for i in range(n)})
+                try:
+                    out_, _ = evalpy(ops, env); o_ = sum(out_[i] << (32 * i) for i in range(n))
+                    if o_ != spec_val(a_, b_): hit = (a_, b_, fl, want, f'got {o_}'); break
+                except (OverflowError, KeyError) as e: hit = (a_, b_, fl, want, str(e)); break
+            if hit:
+                obs.append(Ob(f'K:{name}: operands that drive the rarely set flag {hit[2]} to {hit[3]} (bit-vector query on the code prefix)', 'violated', f'operands {hit[0]}, {hit[1]}: {hit[4]}', time.time() - t1,
+                              'z3 QF_BV (flag reachability) + concrete evaluation of the source', None, {'kind': 'kernel', 'field': f, 'fn': fn, 'a': hit[0], 'b': hit[1], 'build': 'min'}))
+            elif os.environ.get('DV_FIAT_DEBUG'): print(f'  rare-flag search: {len(cands)} witnesses, none disagrees', file=sys.stderr)
     return obs
 
 def check_primitives(field):
@@ -453,10 +518,16 @@ def check_primitives(field):
                 continue
             claim = check(r['result'])
             sv = z3.Solver(); sv.set('timeout', 60000)
-            for c in r['path']: sv.add(c)
+            for pc_ in r['path']: sv.add(pc_)
             sv.add(z3.Not(claim))
             t0 = time.time(); rr = sv.check(); dt = time.time() - t0
-            obs.append(Ob(name, 'proved' if rr == z3.unsat else ('violated' if rr == z3.sat else 'inconclusive'), '', dt, 'mirsym + z3 QF_BV', None, None if rr == z3.unsat else {'kind': 'kernel', 'field': f, 'fn': nm, 'build': 'min'}))
+            mdl = None; det = ''
+            if rr == z3.sat:
+                m_ = sv.model(); gv = lambda v: m_.eval(v, model_completion=True).as_long()
+                mdl = {'kind': 'kernel', 'field': f, 'fn': nm, 'build': 'min', 'prim': nm, 'c': gv(c), 'x': gv(x), 'y': gv(y)}
+                det = f'counterexample carry/flag={mdl["c"]} x={mdl["x"]:#x} y={mdl["y"]:#x}'
+            elif rr != z3.unsat: mdl = {'kind': 'kernel', 'field': f, 'fn': nm, 'build': 'min'}
+            obs.append(Ob(name, 'proved' if rr == z3.unsat else ('violated' if rr == z3.sat else 'inconclusive'), det, dt, 'mirsym + z3 QF_BV', None, mdl))
     z64 = lambda v: z3.ZeroExt(64 - v.size(), v) if z3.is_bv(v) else z3.BitVecVal(v, 64)
     run('addcarryx', [('out', None), ('out', None), ('in', c), ('in', x), ('in', y)], lambda o: z3.Implies(pre, z3.And(z64(o[0]) + (z64(o[1]) << 32) == z64(c) + z64(x) + z64(y), z3.ULE(z64(o[1]), 1))))
     run('subborrowx', [('out', None), ('out', None), ('in', c), ('in', x), ('in', y)], lambda o: z3.Implies(pre, z3.And(z64(o[0]) - (z64(o[1]) << 32) == z64(x) - z64(y) - z64(c), z3.ULE(z64(o[1]), 1))))
@@ -497,9 +568,16 @@ def check_byte_kernels(field):
                 obs.append(Ob(name, 'inconclusive', f'{type(e).__name__}: {e}', 0, 'mirsym/BV')); continue
             if claim is False or claim is True: claim = z3.BoolVal(claim)
             sv.add(z3.Not(claim)); t0 = time.time(); rr = sv.check(); dt = time.time() - t0
-            detail = ''
-            if rr == z3.sat: detail = 'counterexample ' + str(sv.model())[:300]
-            obs.append(Ob(name, 'proved' if rr == z3.unsat else ('violated' if rr == z3.sat else 'inconclusive'), detail, dt, 'mirsym + z3 QF_BV', None, None if rr == z3.unsat else {'kind': 'kernel', 'field': f, 'fn': nm, 'build': 'min'}))
+            detail = ''; mdl = None if rr == z3.unsat else {'kind': 'kernel', 'field': f, 'fn': nm, 'build': 'min'}
+            if rr == z3.sat:
+                # prefer a counterexample that is a valid (reduced) limb pattern, so that it can be replayed through the public API
+                sv.push(); sv.add(z3.ULT(cat(L, 32), z3.BitVecVal(P, 32 * n)))
+                if sv.check() != z3.sat: sv.pop(); sv.check()
+                m_ = sv.model(); gv = lambda v: m_.eval(v, model_completion=True).as_long()
+                mdl['limbs'] = sum(gv(L[i]) << (32 * i) for i in range(n)); mdl['limbs2'] = sum(gv(L2[i]) << (32 * i) for i in range(n))
+                mdl['bytes'] = sum(gv(By[i]) << (8 * i) for i in range(nb)); mdl['flag'] = gv(c)
+                detail = f'counterexample limbs={mdl["limbs"]:#x}' + (f' bytes={mdl["bytes"]:#x}' if nm == 'from_bytes' else '')
+            obs.append(Ob(name, 'proved' if rr == z3.unsat else ('violated' if rr == z3.sat else 'inconclusive'), detail, dt, 'mirsym + z3 QF_BV', None, mdl))
     L = [z3.BitVec(f'l{i}', 32) for i in range(n)]; L2 = [z3.BitVec(f'k{i}', 32) for i in range(n)]
     By = [z3.BitVec(f'y{i}', 8) for i in range(nb)]; c = z3.BitVec('c', 8)
     def mk_nonzero(I, h, it):
